@@ -250,6 +250,6 @@ def run(ctx):
     for c in ("Species", "Reaction"):
         g = py.fn("rdnetwork.%s._set_label" % c)
         ctx.check("assert_string_is_a_valid_label(label)" in pyfe.src(g), "C19.LABEL", g, g._qual, "label validated", "", "")
-    from .. import truth
-    truth.rule(ctx, "C19.TRUTH", ctx.py, ["rdnetwork"], floor=20)
+    from .. import lints
+    lints.run(ctx, "C19", ctx.py, ["rdnetwork"], truth_floor=20)
     ctx.assume("parsing of arbitrary equations and the print-parse round trip are not decided")
